@@ -96,7 +96,7 @@ fn c04_index_step() {
 }
 
 // spec functions written from RFC 3711 4.1.1 / RFC 7714 8.1, 9.1 (not from the code)
-fn spec_iv_aes_cm(salt: &[u8], ssrc: u32, roc: u32, seq: u16) -> [u8; 16] {
+pub(crate) fn spec_iv_aes_cm(salt: &[u8], ssrc: u32, roc: u32, seq: u16) -> [u8; 16] {
     // IV = (k_s * 2^16) XOR (SSRC * 2^64) XOR (i * 2^16), k_s 112 bits, i = 2^16*ROC + SEQ
     let mut ks: u128 = 0;
     let mut j = 0;
@@ -105,13 +105,13 @@ fn spec_iv_aes_cm(salt: &[u8], ssrc: u32, roc: u32, seq: u16) -> [u8; 16] {
     let iv = (ks << 16) ^ ((ssrc as u128) << 64) ^ (i << 16);
     iv.to_be_bytes()
 }
-fn spec_iv_gcm_rtp(salt: &[u8], ssrc: u32, roc: u32, seq: u16) -> [u8; 12] {
+pub(crate) fn spec_iv_gcm_rtp(salt: &[u8], ssrc: u32, roc: u32, seq: u16) -> [u8; 12] {
     // 00 00 || SSRC || ROC || SEQ, XOR 96-bit salt
     let s = ssrc.to_be_bytes(); let r = roc.to_be_bytes(); let q = seq.to_be_bytes();
     let b = [0, 0, s[0], s[1], s[2], s[3], r[0], r[1], r[2], r[3], q[0], q[1]];
     let mut o = [0u8; 12]; let mut j = 0; while j < 12 { o[j] = b[j] ^ salt[j]; j += 1; } o
 }
-fn spec_iv_gcm_rtcp(salt: &[u8], ssrc: u32, index: u32) -> [u8; 12] {
+pub(crate) fn spec_iv_gcm_rtcp(salt: &[u8], ssrc: u32, index: u32) -> [u8; 12] {
     // 00 00 || SSRC || 00 00 || (0 || 31-bit SRTCP index), XOR 96-bit salt
     let s = ssrc.to_be_bytes(); let x = index.to_be_bytes();
     let b = [0, 0, s[0], s[1], s[2], s[3], 0, 0, x[0], x[1], x[2], x[3]];
